@@ -116,6 +116,7 @@ func (x *Ex) genTables() string {
 		{"internal/domutil", "rxVisibilityHidden"}, {"internal/domutil", "rxSrcsetURL"},
 		{"internal/stringutil", "rxFullWordCounter"}, {"internal/stringutil", "rxLetterWordCounter"},
 		{"internal/stringutil", "rxWordMatcher1"}, {"internal/stringutil", "rxWordMatcher2"}, {"internal/stringutil", "rxWordMatcher3"},
+		{"internal/converter", "rxUnlikelyCandidates"}, {"internal/converter", "rxOkMaybeItsACandidate"}, {"internal/converter", "rxByline"},
 	})
 	x.tableVar(f, "internal/extractor/embed", "relevantTwitterTags", "relevantTwitterTags")
 	x.tableVar(f, "internal/extractor/embed", "relevantVimeoTags", "relevantVimeoTags")
